@@ -304,6 +304,8 @@ class ItemHistoryEngine(Engine):
                 dk = set(mp) & set(scenario['dup_kernels'])
                 if any(c['to'] in dk for q in mp if q in proj['procs'] for c in proj['procs'][q]['calls']):
                     f.add('dup-kernel-called-within-its-module')
+                if dk and any(BG.matches(BG.item_name(proj, q), cfg['seeds']) for q in mp if q in proj['procs']):
+                    f.add('dup-kernel-module-holds-a-seed')
         for m in proj['mods']:
             r = [q for q in m['procs'] if q in reach]
             if len(r) >= 2 and any(q in drivers for q in r):
